@@ -90,6 +90,14 @@ def variants(ctx, idx, cmds, scripts, lim, quit, base_obs, model_obs):
                 out.append(c)
             else:
                 unpaired.append(c)
+    # a transport that stops accepting bytes: from output byte k on, write() returns Ok(0) (a full sink, a peer
+    # that no longer drains): that is an error of the transport (WriteZero), never a success
+    total = sum((len(l) - 2) // 2 for l in base_obs if l.startswith("w|"))
+    for k in sorted(set([0, 1, 4, 5, 72, 73, 74, total - 1] + [total * j // 7 for j in range(1, 7)])):
+        if 0 <= k < total:
+            c = mk("wzero%d" % k); c.wzero = k + 1
+            c.meta["fault"] = ("wzero", k)
+            unpaired.append(c)
     base = mk("x")
     toks = base.reads
     for k in range(len(toks) + 1):
@@ -133,8 +141,8 @@ def oracle(case, obs):
     if r.startswith("panic") or r == "hang":
         fails.append((None, "transport fault %s made run_on %s" % (f, r)))
         return fails
-    faultpos = next((i for i, l in enumerate(obs) if l.startswith(("werr|", "flusherr|", "readerr|"))), None)
-    if f[0] in ("write", "read"):
+    faultpos = next((i for i, l in enumerate(obs) if l.startswith(("werr|", "flusherr|", "readerr|")) or l == "wzero"), None)
+    if f[0] in ("write", "read", "wzero"):
         if faultpos is None:
             # the fault index was never reached (e.g. shim error ended the run first)
             return fails
@@ -168,5 +176,5 @@ def run(ctx):
                   classify=lambda c, o: ["%s_%s" % (c.meta["fault"][0], c.meta["fault"][1] if c.meta["fault"][0] != "eof" else ("boundary" if c.meta["fault"][2] else "inside")),
                                         "result_" + result_of(o).split(" ")[0]])
     if unpaired:
-        ctx.corr["hist"]["fault_at_an_operation_the_model_does_not_have"] = len(unpaired)
+        ctx.corr["hist"]["faults_checked_against_the_oracle_only"] = len(unpaired)
         ctx.impl_only(unpaired, oracle=oracle, tag="C19unpaired")
